@@ -324,6 +324,18 @@ class SyntheticBranch(SyntheticBlock):
 
         old_branch_value_table = self.branch_value_table
         new_branch_value_table = {}
+        if len(jump_targets) == len(self._jump_targets):
+            # Positional replacement: any number of targets may be renamed
+            # at once, each table entry follows its target's position.
+            for target, new_target in zip(self._jump_targets, jump_targets):
+                for k, v in old_branch_value_table.items():
+                    if v == target:
+                        new_branch_value_table[k] = new_target
+            return replace(
+                self,
+                _jump_targets=jump_targets,
+                branch_value_table=new_branch_value_table,
+            )
         for target in self._jump_targets:
             if target not in jump_targets:
                 # ASSUMPTION: only one jump_target is being updated
